@@ -218,23 +218,6 @@ func constField(w *World, r *Report) {
 		}
 	}
 	r.floor("CONST", "Poly64.Div call sites in gf2p16 (table construction)", n, 1)
-	// table lengths
-	lens := map[string]int64{}
-	for _, g := range w.moduleGlobals() {
-		if pkgShort(g.Pkg.Pkg.Path()) != "gf2p16" {
-			continue
-		}
-		if arr, ok := g.Type().(*types.Pointer).Elem().Underlying().(*types.Array); ok {
-			lens[g.Name()] = arr.Len()
-		}
-	}
-	for _, name := range []string{"logTable", "expTable"} {
-		if lens[name] == 65535 {
-			r.ok("CONST", "field:len("+name+")", "-", "65535 entries")
-		} else {
-			r.bad("CONST", "field:len("+name+")", "-", fmt.Sprintf("%s has %d entries, the multiplicative group has 65535 elements", name, lens[name]))
-		}
-	}
 	// moduli in T's methods
 	nrem := 0
 	for _, fn := range w.funcsInPkgs("gf2p16") {
